@@ -298,6 +298,11 @@ def run_check(prop, tier, seed):
     verdicts = [p[1] for p in pairs]
     cov["traces_validated_against_impl"] = len(traces)
     cov["trace_events_validated"] = sum(len(t["events"]) for t in traces)
+    unjudged = [(t, v) for t, v in pairs if v.get("unjudged")]
+    cov["unjudged_traces"] = len(unjudged)
+    for t, v in unjudged[:3]:
+        log("UNJUDGED family=%s seed=%s: TLC could not evaluate the specification on this trace: %s" %
+            (t["family"], t["seed"], json.dumps(v["drift"])[:400]))
     drift = [(t, v) for t, v in pairs if v["drift"]]
     wit = {}
     for v in verdicts:
@@ -351,6 +356,10 @@ def run_check(prop, tier, seed):
         log("KNOWN-FINDING: property=%s %s %s (e.g. clause %s, family %s seed %s)" %
             (prop, f["id"], f["what"], clause, t["family"], t["seed"]))
     rc = 0
+    if unjudged and not viol:
+        # nothing else was found and some traces could not be judged at all: the machinery is not total here
+        log("MACHINERY-ERROR %d traces could not be judged (see UNJUDGED lines)" % len(unjudged))
+        rc = 2
     seen = set()
     for k, (clause, idx, t, v) in enumerate(viol):
         if clause in seen and k > 20:
